@@ -3,6 +3,9 @@
   (`C02.SpeciesPerm p q`, what `Generation.FillPopulationStatistics` does) before `NextEpoch` runs on it.
   None of their hypotheses depends on the order inside a species (table in Props/C02Perm.lean); these are the
   transfers, stated so that the hypotheses are those of the original theorems ON `p` and the epoch runs on `q`.
+  Also the C10 RUN theorem under the permutation form of the evaluator hypothesis: `EvalKeepsPerm`,
+  `champInv_evalPerm`, `runEpochs_keeps_champions_perm` (the order-preserving `runEpochs_keeps_champions` is the
+  instance `runEpochs_keeps_champions_of_perm`), with a two-generation run whose evaluator reverses every species list.
   Kind A.
 -/
 import GoNeat.Props.C10Epoch
